@@ -261,3 +261,51 @@ Proof.
   cbv zeta in *. split; [exact G | intros l Hn; now rewrite K].
 Qed.
 End Specs.
+
+Lemma key_dec (a b : seg * name) : {a = b} + {a <> b}.
+Proof. decide equality; [apply name_dec | apply seg_eq_dec]. Qed.
+
+(* ---- Timeline.to_annotation(generator): one '_' track per segment, labelled in timeline order;
+        get_timeline of the result gives the timeline back ---- *)
+Section ToAnnotation.
+Variable eps : Z.
+Hypothesis Heps : 0 <= eps.
+
+Theorem to_annotation_spec t u m g : wf eps t -> gen_ok g (List.length t) ->
+  exists r, to_annotation eps t u m g = Some r /\ AInv eps r /\
+    (forall k s, nth_error t k = Some s -> getitem r s default_track = Some (gen_fun g k)) /\
+    (forall s tr, getitem r s tr <> None -> In s t /\ tr = default_track) /\
+    skeys (a_tracks r) = t /\
+    a_uri r = u /\ a_modality r = m.
+Proof.
+  intros [Hsort Hne] Hg. unfold to_annotation.
+  rewrite (opt_fold_some g (gen_fun g) (fun acc (s : seg) n => setitem eps acc s default_track n) t
+             (fun i => gen_fun_nth g _ i Hg)).
+  cbn [fst]. eexists. split; [reflexivity|].
+  set (recs := map (fun s : seg => (s, default_track, default_track)) t).
+  assert (Efold : forall c i, fold_left (fun st (s : seg) => (setitem eps (fst st) s default_track (gen_fun g (snd st)), S (snd st))) t (c, i)
+                              = fold_left (rl_step eps (gen_fun g)) recs (c, i)).
+  { unfold recs. clear. induction t as [|s t IH]; intros c i; cbn [fold_left map]; [reflexivity|]. now rewrite IH. }
+  rewrite Efold.
+  assert (Hkeys : map key_of recs = map (fun s => (s, default_track)) t) by (unfold recs; rewrite map_map; reflexivity).
+  destruct (rl_fold eps (gen_fun g) recs (Annotation.a_empty u m) O) as [J [G [K [U M]]]].
+  - apply AInv_empty.
+  - rewrite Hkeys. apply NoDup_map_inj; [intros x y E; now inversion E | now apply ssorted_NoDup].
+  - intros x Hx. unfold recs in Hx. apply in_map_iff in Hx as [s [<- Hs]]. cbn [fst]. rewrite Forall_forall in Hne. now apply Hne.
+  - cbv zeta in *. split; [exact J|].
+    assert (G' : forall k s, nth_error t k = Some s ->
+              getitem (fst (fold_left (rl_step eps (gen_fun g)) recs (Annotation.a_empty u m, O))) s default_track = Some (gen_fun g k)).
+    { intros k s Hk. apply (G k (s, default_track, default_track)). unfold recs. rewrite nth_error_map, Hk. reflexivity. }
+    assert (N' : forall s tr, getitem (fst (fold_left (rl_step eps (gen_fun g)) recs (Annotation.a_empty u m, O))) s tr <> None ->
+              In s t /\ tr = default_track).
+    { intros s tr Hn. destruct (in_dec key_dec (s, tr) (map key_of recs)) as [Hin|Hnin].
+      - rewrite Hkeys in Hin. apply in_map_iff in Hin as [s' [E Hs']]. inversion E; subst. tauto.
+      - exfalso. apply Hn. rewrite (K s tr Hnin). reflexivity. }
+    split; [exact G'|]. split; [exact N'|]. split; [|split; [exact U | exact M]].
+    apply ssorted_ext; [apply (i_wf _ _ J) | exact Hsort|]. intro s. split.
+    + intro Hs. apply (keys_from_lookup eps _ s (i_wf _ _ J)) in Hs as [tr [l Hl]].
+      rewrite <- getitem_lookup in Hl. destruct (N' s tr) as [A _]; [congruence | exact A].
+    + intro Hs. destruct (In_nth_error _ _ Hs) as [k Hk]. specialize (G' k s Hk). rewrite getitem_lookup in G'.
+      apply (keys_from_lookup eps _ s (i_wf _ _ J)). eauto.
+Qed.
+End ToAnnotation.
